@@ -1,7 +1,7 @@
 """C02 -- see DESIGN.md section 5.  Deductive targets are added below the bounded import."""
 PROP = "C02"
 LEVEL = "other"
-EXPLANATION = ('Deductive: the option side of DefaultArgsParser (_parse, _parse_long_option, _parse_short_option, _parse_short_option_set, _add_long_option, _add_short_option) is verified against `raises only CannotParseArgsException / NoSuchOptionException` for ALL token lists and all well-formed formats (every index, pop, dict lookup and attribute access carries its CPython failure condition as a safety obligation), together with the scratch invariant that stored names belong to the format and multi-valued options hold lists; conversions raising only ValueError are proved under C07.  Bounded: token soup over the adversarial alphabet x small formats, single-fault mutations of valid lines, lenient totality, lenient == strict on success.')
+EXPLANATION = ('Deductive: the option side of DefaultArgsParser (_parse, _parse_long_option, _parse_short_option, _parse_short_option_set, _add_long_option, _add_short_option) is verified against `raises only CannotParseArgsException / NoSuchOptionException` for ALL token lists and all well-formed formats (every index, pop, dict lookup and attribute access carries its CPython failure condition as a safety obligation), together with the scratch invariant that stored names belong to the format and multi-valued options hold lists, and with the exact-name clauses: an option token is accepted only if the format has an option under exactly the name that was typed (everything after the two dashes up to the first `=`; the first letter after one dash; every letter of a group that was looked at), and NoSuchOptionException is raised only if it has none; conversions raising only ValueError are proved under C07.  Bounded: token soup over the adversarial alphabet x small formats, single-fault mutations of valid lines, lenient totality, lenient == strict on success.')
 LEVEL_NOTE = ("assumes: the format's lookups behave as a well-formed format (C06 view, C07 normal form); the positional side (_parse_argument, command-name re-alignment) and lenient == strict are bounded only; termination of the classification loop is not proved (coarse frame of the assumed positional contract)")
 from . import parser_contracts as pcx
 TARGETS = [pcx.P + m for m in ("_add_long_option", "_add_short_option", "_parse_short_option_set", "_parse_long_option", "_parse_short_option", "_parse")]
